@@ -31,6 +31,9 @@ pub struct GenOpts {
     pub nonzero_start_pct: u64,
     /// start the valid stream just before a power-of-two tick boundary (2^31, 2^32, 2^33, 2^53, 2^63, 2^64)
     pub extreme_start_pct: u64,
+    /// per-mille of histories whose video frame count is one of the 'round' numbers chunking /
+    /// batching code tends to use (255..4096), without an audio track
+    pub round_count_pm: u64,
     /// audio start offset relative to the first video frame: allow positive offsets
     pub audio_offset: bool,
     /// percent of histories with no finish at all
@@ -58,6 +61,7 @@ impl Default for GenOpts {
             decorate: true,
             nonzero_start_pct: 30,
             extreme_start_pct: 3,
+            round_count_pm: 0,
             audio_offset: true,
             no_finish_pct: 0,
             hostile_cfg_pct: 0,
@@ -116,7 +120,7 @@ pub fn titles(r: &mut Rng) -> String {
         3 => "𝄞 four-byte 😀 chars".to_string(),
         4 => "x".repeat(r.range(1, 300) as usize),
         5 => "日本語のタイトル".repeat(r.range(1, 20) as usize),
-        6 => "a\0b\nc".to_string(),
+        6 => r.pick(&["a\0b\nc", "Holiday\0", "padded\0\0\0\0", "\0", " lead and trail ", "tab\t"]).to_string(),
         _ => (0..r.range(1, 40)).map(|_| (b'a' + r.below(26) as u8) as char).collect(),
     }
 }
@@ -272,12 +276,19 @@ pub fn gen_history_for(r: &mut Rng, o: &GenOpts, cfg: Cfg) -> History {
 }
 
 fn gen_history_inner(r: &mut Rng, o: &GenOpts, cfg: Cfg) -> History {
+    let mut cfg = cfg;
     let reorder = r.chance(o.reorder_pct, 100);
-    let nv = match r.below(12) {
-        0 => 0,
-        1 => 1,
-        2 => 2,
-        _ => r.range(1, o.max_video.max(1) as u64) as usize,
+    let round = r.chance(o.round_count_pm, 1000);
+    let nv = if round {
+        cfg.audio = None;
+        *r.pick(&[255usize, 256, 257, 359, 360, 361, 512, 720, 1023, 1024, 1025, 1080, 2048, 3072, 4096])
+    } else {
+        match r.below(12) {
+            0 => 0,
+            1 => 1,
+            2 => 2,
+            _ => r.range(1, o.max_video.max(1) as u64) as usize,
+        }
     };
     let start = if r.chance(o.extreme_start_pct, 100) {
         // the stream crosses (or sits next to) a boundary at which 32/53/63/64-bit tick arithmetic changes
@@ -324,7 +335,7 @@ fn gen_history_inner(r: &mut Rng, o: &GenOpts, cfg: Cfg) -> History {
     let enc_ms = *r.pick(&[33u32, 40, 20, 1, 1000, 17]);
     let enc_var = r.chance(1, 3);
     for (i, &(pts, dts)) in vt.iter().enumerate() {
-        let body = if o.big_frames { frame_len(r) } else { small_len(r) };
+        let body = if o.big_frames && !round { frame_len(r) } else { small_len(r) };
         let kind = if i == 0 {
             FrameKind::KeyCfg
         } else if r.chance(1, 8) {
@@ -395,8 +406,10 @@ fn gen_history_inner(r: &mut Rng, o: &GenOpts, cfg: Cfg) -> History {
                     if r.chance(1, 3) {
                         let p = f64::from_bits(*pts);
                         if let Some(&(vp, _)) = vt.iter().min_by(|a, b| (a.0 - p).abs().partial_cmp(&(b.0 - p).abs()).unwrap_or(std::cmp::Ordering::Equal)) {
-                            if vp >= first_v_pts {
-                                *pts = vp.to_bits();
+                            // exactly on the video frame, or one tick before / after it
+                            let q = vp + [0.0, 0.0, 1.0, -1.0][r.below(4) as usize] / 90_000.0;
+                            if q >= first_v_pts {
+                                *pts = q.to_bits();
                             }
                         }
                     }
@@ -412,6 +425,35 @@ fn gen_history_inner(r: &mut Rng, o: &GenOpts, cfg: Cfg) -> History {
                     *pts = last.to_bits();
                 } else {
                     last = p;
+                }
+            }
+        }
+    }
+    // ... or the other way round: a video frame stamped one tick after / before / on an audio
+    // frame that sits on its own natural clock (variable-frame-rate capture)
+    if !reorder && !use_encode_v && !aops.is_empty() && vops.len() >= 3 && r.chance(1, 6) {
+        let apts: Vec<f64> = aops.iter().filter_map(|o| if let Op::WriteAudio { pts, .. } = o { Some(f64::from_bits(*pts)) } else { None }).collect();
+        if !apts.is_empty() {
+            for i in 1..vops.len() - 1 {
+                if !r.chance(1, 3) {
+                    continue;
+                }
+                let ts = |o: &Op| match o {
+                    Op::WriteVideo { pts, .. } => Some(f64::from_bits(*pts)),
+                    Op::WriteVideoDts { pts, dts, .. } if pts == dts => Some(f64::from_bits(*pts)),
+                    _ => None,
+                };
+                let (Some(lo), Some(hi)) = (ts(&vops[i - 1]), ts(&vops[i + 1])) else { continue };
+                let q = *r.pick(&apts) + [1.0, 1.0, 0.0, -1.0][r.below(4) as usize] / 90_000.0;
+                if q > lo + 2.0 / 90_000.0 && q < hi - 2.0 / 90_000.0 {
+                    match &mut vops[i] {
+                        Op::WriteVideo { pts, .. } => *pts = q.to_bits(),
+                        Op::WriteVideoDts { pts, dts, .. } if pts == dts => {
+                            *pts = q.to_bits();
+                            *dts = q.to_bits();
+                        }
+                        _ => {}
+                    }
                 }
             }
         }
@@ -447,7 +489,8 @@ fn gen_history_inner(r: &mut Rng, o: &GenOpts, cfg: Cfg) -> History {
         }
     }
     // hostile injections
-    if o.hostile_pct > 0 {
+    // (none in the round-count recordings: there the exact number of accepted frames matters)
+    if o.hostile_pct > 0 && !round {
         let mut out = Vec::with_capacity(ops.len() * 2);
         let mut last_v: Option<f64> = None;
         let mut last_a: Option<f64> = None;
